@@ -41,7 +41,7 @@ def run(ctx):
         ctx.leanchecker("Slock.Properties.C14")
     n = 150 if ctx.tier == "quick" else 5000
     for pkg in ("protocol", "server"):
-        exe = ctx.build_harness(pkg)
+        exe = ctx.build_harness(pkg, only=["zz_verif_codec_test.go"])
         if not exe:
             continue
         outdir = ctx.run_harness(exe, "codec", n)
